@@ -91,27 +91,40 @@ Spec == Init /\ [][Next]_vars
 G == Midnight \div Grid
 At(g) == (g - 1) * Grid
 
-\* the obligations on the functions, for one day, over all grid instants
+\* The obligations on the functions for one day, over all grid instants.  "No change before the next change" in the form
+\*   \A g < h : At(h) < N[g] => V[h] = V[g]
+\* is equivalent to: every instant before a change point h (V[h] # V[h-1]) has its next change at or before h
+\* (if V[h'] # V[g] for some h' in g's window then some change point lies in (g, h'], hence inside the window).
 DayOK(cfg, date) ==
     LET plan == Plan(cfg, date)
         V == TLCEval([g \in 1..G |-> ValueP(cfg, plan, At(g))])        \* TLCEval: tabulate once
         N == TLCEval([g \in 1..G |-> NextChangeP(cfg, plan, At(g))])
+    IN  /\ \A g \in 1..G : V[g] # NULL /\ (V[g] = NOVAL <=> ~InPeriod(cfg, date)) /\ At(g) < N[g] /\ N[g] <= Midnight
+        /\ \A h \in 2..G : V[h] # V[h - 1] => \A g \in 1..(h - 1) : N[g] <= At(h)
+
+\* the same in its literal form, plus exactness of ExactNext and LooseNext <= NextChange <= ExactNext (sampled members only)
+DayOKLiteral(cfg, date) ==
+    LET plan == Plan(cfg, date)
+        V == TLCEval([g \in 1..G |-> ValueP(cfg, plan, At(g))])
+        N == TLCEval([g \in 1..G |-> NextChangeP(cfg, plan, At(g))])
         X == TLCEval([g \in 1..G |-> ExactNextP(cfg, plan, At(g))])
     IN  \A g \in 1..G :
-          /\ V[g] # NULL /\ (V[g] = NOVAL <=> ~InPeriod(cfg, date))
-          /\ At(g) < N[g] /\ LooseNextP(cfg, plan, At(g)) <= N[g] /\ N[g] <= X[g] /\ X[g] <= Midnight
-          /\ \A h \in g..G : At(h) < X[g] => V[h] = V[g]                     \* no change before the next change
-          /\ X[g] < Midnight => ValueP(cfg, plan, X[g]) # V[g]               \* and a change at it
+          /\ LooseNextP(cfg, plan, At(g)) <= N[g] /\ N[g] <= X[g] /\ X[g] <= Midnight
+          /\ \A h \in g..G : At(h) < X[g] => V[h] = V[g]
+          /\ X[g] < Midnight => ValueP(cfg, plan, X[g]) # V[g]
+
+Sampled == (i1 * 7919 + i2 * 104729 + w * 1299709 + k * 15485863 + SampleSeed) % SampleMod = 0
 
 GridOK == (ph = 2 /\ fresh) => (DayOK(Cfg, D1) /\ DayOK(Cfg, D2))
+GridOKLiteral == (ph = 2 /\ fresh /\ Sampled) => (DayOKLiteral(Cfg, D1) /\ DayOKLiteral(Cfg, D2))
 
 M_ShowsScheduledValue == ph = 2 => ShowsScheduledValue(Cfg)
 M_KeepsRunning == ph = 2 => KeepsRunning
 M_NoLivelock == ph = 2 => NoLivelock
 M_NoChangeBeforeNext == ph = 2 => NoChangeBeforeNext(Cfg)
-\* grid form of the same: no grid instant of [now, deadline) on the current day shows a different value
+\* grid form of the same (sampled members): no grid instant of [now, deadline) on the current day shows a different value
 M_NoChangeOnGrid ==
-    (ph = 2 /\ deadline # NoDeadline) =>
+    (ph = 2 /\ deadline # NoDeadline /\ Sampled) =>
         LET cfg == Cfg
             plan == Plan(cfg, now[1])
             v == ValueP(cfg, plan, now[2])
@@ -125,8 +138,6 @@ DayVec(cfg, date) ==
          v |-> [g \in 1..G |-> ValueP(cfg, plan, At(g))],
          n |-> [g \in 1..G |-> NextChangeP(cfg, plan, At(g))],
          x |-> [g \in 1..G |-> ExactNextP(cfg, plan, At(g))]]
-
-Sampled == (i1 * 7919 + i2 * 104729 + w * 1299709 + k * 15485863 + SampleSeed) % SampleMod = 0
 
 Emit == (ph = 2 /\ fresh /\ Sampled) =>
     PrintT(<<"@@", ToJson([cfg |-> Cfg, grid |-> Grid, days |-> <<DayVec(Cfg, D1), DayVec(Cfg, D2)>>])>>)
